@@ -1251,8 +1251,22 @@ func init() {
 		fs := a[1].(*Term)
 		ts := x.ts
 		nl := ts.Add(ts.LShr(fs, ts.ConstU(64, 6)), ts.BoolToBV(ts.Not(ts.Eq(ts.Extract(fs, 5, 0), ts.ConstU(6, 0))), 64))
-		x.spCtr++
-		r := x.fresh(fmt.Sprintf("spleafindex#%d", x.spCtr), 64)
+		// the same function of (filesize, window ID, contract ID) wherever it is called
+		var key []*Term
+		var flat func(v Value)
+		flat = func(v Value) {
+			switch t := v.(type) {
+			case *Term:
+				key = append(key, t)
+			case Agg:
+				for _, e := range t {
+					flat(e)
+				}
+			}
+		}
+		flat(a[2])
+		flat(a[3])
+		r := ts.UF("spleafindex", 64, fs, ts.Concat(key...))
 		x.addPC(ts.Ite(ts.Eq(nl, ts.ConstU(64, 0)), ts.Eq(r, ts.ConstU(64, 0)), ts.ULt(r, nl)))
 		return r
 	}
